@@ -73,7 +73,12 @@ func (t *recTransport) Write(p []byte) (int, error) {
 	return len(p), nil
 }
 
+// Close is deliberately not instantaneous (TLS close_notify, a WebSocket close handshake … take time): whatever
+// the library does concurrently with closing a transport gets a chance to be observed in the wrong order.
+const scriptedCloseDelay = 300 * time.Microsecond
+
 func (t *recTransport) Close() error {
+	time.Sleep(scriptedCloseDelay)
 	t.mu.Lock()
 	t.closed = true
 	t.cond.Broadcast()
